@@ -724,10 +724,10 @@ pub fn run_batch(cfg: &BatchCfg) -> Result<BatchOut, String> {
                     if cur != *last {
                         *last = cur;
                         *since = Instant::now();
-                    } else if since.elapsed().as_secs() > 300 {
+                    } else if since.elapsed().as_secs() > 900 {
                         crate::fork::kill_group(c.id());
                         let _ = c.kill();
-                        harness_errors.push(format!("worker process {} made no progress for 300 s in run {} (hang inside the code under test?)", k, last));
+                        harness_errors.push(format!("worker process {} made no progress for 900 s in run {} (hang inside the code under test?)", k, last));
                         *last = "exited-killed".into();
                     }
                 }
